@@ -465,15 +465,46 @@ def rule_json_pairing(ctx):
     ctx.check("if value is None: return None" in re.sub(r"\s+", " ", ast.unparse(sj.node)), sj.fq, "no stored hash -> None", "StepHash.from_json changed", "ok")
 
 
+def rule_whole_content(ctx):
+    """R-C13-6: the content digest covers the whole file: the unbuffered read loop ends only on a zero-length read
+    (a short read is not end-of-file on pipes, FUSE or network file systems) and every chunk read is hashed."""
+    fi = ctx.prog.func("hash.compute_file_digest")
+    loops = [w for w in ast.walk(fi.node) if isinstance(w, ast.While)]
+    if not loops:
+        raise AnalysisError("compute_file_digest: read loop not found")
+    for w in loops:
+        reads = [a for a in ast.walk(w) if isinstance(a, ast.Assign) and isinstance(a.value, ast.Call) and callee_name(a.value) in ("readinto", "read") and len(a.targets) == 1 and isinstance(a.targets[0], ast.Name)]
+        if not reads:
+            continue
+        var = reads[0].targets[0].id
+        is_readinto = callee_name(reads[0].value) == "readinto"
+        exits = []
+        for n in ast.walk(w):
+            if isinstance(n, ast.If) and any(isinstance(x, ast.Break) for x in n.body):
+                exits.append(ast.unparse(n.test))
+        eof_forms = {f"{var} == 0", f"not {var}", f"0 == {var}", f"len({var}) == 0"}
+        ctx.check(bool(exits) and all(e in eof_forms for e in exits) and isinstance(w.test, ast.Constant) and w.test.value is True, fi.fq, "the read loop ends only on a zero-length read",
+                  f"loop exits on {exits}: a short read (pipe, FUSE, network file system) is taken for end-of-file and only a prefix of the content is hashed, so different contents share a digest", "EOF = zero-length read", where=ctx.where_of(fi, w))
+        upd = [c for c in calls_in(w) if callee_name(c) == "update"]
+        ok = bool(upd) and all((f"[:{var}]" in ast.unparse(c.args[0])) if is_readinto else (ast.unparse(c.args[0]) == var) for c in upd if c.args)
+        ctx.check(ok, fi.fq, "every chunk read is fed to the digest", f"update arguments: {[ast.unparse(c.args[0]) for c in upd if c.args]}", "view[:nread]", where=ctx.where_of(fi, w))
+    op = [c for c in calls_in(fi.node) if isinstance(c.func, ast.Name) and c.func.id == "open"]
+    ctx.check(bool(op) and all(len(c.args) >= 2 and isinstance(c.args[1], ast.Constant) and "b" in str(c.args[1].value) for c in op), fi.fq, "the file is read in binary mode", "text mode: newline translation and decoding change what is hashed", "rb")
+
+
 RULES = [
     Rule("R-C13-1", "every ingredient reaches the digest", rule_ingredients, min_instances=12),
     Rule("R-C13-2", "loops feeding the digest iterate sorted(...)", rule_sorted_loops, min_instances=2),
     Rule("R-C13-3", "the word encoding is uniquely decodable", rule_decodable, min_instances=4),
     Rule("R-C13-4", "stat shortcut compares the full stat signature", rule_stat_shortcut, min_instances=4),
+    Rule("R-C13-6", "the content digest covers the whole file", rule_whole_content, min_instances=3),
     Rule("R-C13-5", "None <-> unknown pairing in to_json/from_json", rule_json_pairing, min_instances=4),
 ]
 
 MUTANTS = [
+    Mutant("short-read-is-eof", "hash.py", in_function("compute_file_digest", replace_once("            if nread == 0:\n                break\n            digest.update(view[:nread])\n", "            digest.update(view[:nread])\n            if nread < HASH_CHUNK_SIZE:\n                break\n")), ("R-C13-6",)),
+    Mutant("hash-whole-buffer", "hash.py", in_function("compute_file_digest", replace_once("digest.update(view[:nread])", "digest.update(view)")), ("R-C13-6",)),
+    Mutant("env-lookup-with-default", "executor.py", in_function("Executor._compute_inp_step_hash", replace_once("{name: self.base_env.get(name) for name in env_deps}", "{name: self.base_env.get(name, \"\") for name in env_deps}")), ("R-C13-1",)),
     Mutant("drop-shell", "hash.py", in_function("StepHash.from_inp", replace_once("        hw.update(bytes([int(shell)]))\n", "        hw.update(bytes([0]))\n")), ("R-C13-1",)),
     Mutant("drop-size", "hash.py", in_function("_update_file_hashes", replace_once("        hw.update(file_hash.size.to_bytes(8))\n", "")), ("R-C13-1",)),
     Mutant("drop-overrides-at-call", "executor.py", in_function("Executor._compute_inp_step_hash", replace_once("            env_overrides=env_overrides,\n", "")), ("R-C13-1",)),
@@ -488,6 +519,7 @@ MUTANTS = [
 ]
 
 VARIANTS = [
+    Variant("env-values-through-helper", "executor.py", lambda t: t.replace("    async def _compute_inp_step_hash(", "    def _tracked_env_values(self, env_deps):\n        base_env = self.base_env\n        return {name: base_env.get(name) for name in env_deps}\n\n    async def _compute_inp_step_hash(", 1).replace("{name: self.base_env.get(name) for name in env_deps}", "self._tracked_env_values(env_deps)") if "{name: self.base_env.get(name) for name in env_deps}" in t else None),
     Variant("reorder-shortcut", "hash.py", in_function("FileHash.refreshed", lambda s: s.replace("            self.mode == st.st_mode\n            and self.mtime == st.st_mtime\n", "            self.mtime == st.st_mtime\n            and self.mode == st.st_mode\n") if "self.mode == st.st_mode\n            and self.mtime" in s else None)),
     Variant("rename-keyword", "hash.py", in_function("StepHash.from_inp", lambda s: s.replace('"__inp_paths__"', '"__inputs__"'))),
 ]
